@@ -50,7 +50,8 @@ Definition percentage_correct (ref est : list Q) (window : Q) : res Q :=
   _ <- validate ref est ;;
   let d := deviations ref est in Ok (qnat (count_within window d) / qnat (length d)).
 
-(* percentage_correct_segments *)
+(* percentage_correct_segments.  `last ref 0`, `hd 0 ref` and `qmaxl` (np.max) are only evaluated after validate has
+   established that ref (and est, of the same length) is non-empty, so their defaults are unreachable. *)
 Definition overlap (rs re es ee : Q) : Q := Qmax (Qmin re ee - Qmax rs es) 0.
 Fixpoint overlaps (rs re es ee : list Q) : list Q :=
   match rs, re, es, ee with
